@@ -416,3 +416,19 @@ def resolve_future(f, value):
 def reject_future(f, exc):
     if not f.done():
         f.set_exception(exc)
+
+
+def cancel_future(f):
+    f.cancel()
+
+
+class Watch:
+    def __init__(self, f):
+        self.f = f
+
+    def state(self):
+        return future_state(self.f)
+
+
+def watch(f):
+    return Watch(f)
